@@ -87,6 +87,7 @@ def run_forked(M, argv, cwd, report_path, stdio_path, before_run=None, timeout=1
             fin = before_run(M) if before_run else None
             status = "ok"
             detail = ""
+            tb_text = ""
             try:
                 M.Lian().run()
             except SystemExit as e:
@@ -96,12 +97,13 @@ def run_forked(M, argv, cwd, report_path, stdio_path, before_run=None, timeout=1
                 frame = next((f for f in reversed(tb) if "/lian/" in f.filename), tb[-1] if tb else None)
                 status = f"exc:{type(e).__name__}"
                 detail = f"{str(e)[:200]} @ {os.path.basename(frame.filename)}:{frame.name}" if frame else str(e)[:200]
+                tb_text = " <- ".join(f"{os.path.basename(f.filename)}:{f.lineno}:{f.name}" for f in reversed(tb[-8:]))
             try:
                 sys.stdout.flush()
                 sys.stderr.flush()
             except Exception:  # noqa
                 pass
-            rep = {"status": status, "detail": detail}
+            rep = {"status": status, "detail": detail, "tb": tb_text}
             os.environ["LIAN_SIM_RUN_STATUS"] = status
             if fin:
                 rep["report"] = fin()
